@@ -3,6 +3,8 @@
 From Coq Require Import ZArith List Bool Arith Lia Permutation.
 Import ListNotations.
 From PV Require Import Sched.Block Sched.Confluence Sched.Accept.
+(* the same theorems with NO footprint hypothesis for blocks of the RTL language: see Props/C01_rtl.v *)
+From PV Require Import Props.C01_rtl.
 
 Section C01.
 Context {var val : Type}.
